@@ -35,7 +35,7 @@ TReset ==
   /\ tasks' = BAddAll(EmptyBag, [i \in 1..Cardinality(RR) |-> <<FWait((CHOOSE f \in Perms(RR) : TRUE)[i])>>])
   /\ rmu' = [r \in RR |-> FALSE] /\ comp' = [r \in RR |-> None]
   /\ stop' = [r \in RR |-> FALSE] /\ cancelled' = [r \in RR |-> FALSE]
-  /\ stopStarted' = [r \in RR |-> FALSE] /\ stopReturned' = [r \in RR |-> FALSE] /\ failed' = [r \in RR |-> FALSE]
+  /\ stopStarted' = [r \in RR |-> 0] /\ stopReturned' = [r \in RR |-> FALSE] /\ failed' = [r \in RR |-> FALSE]
   /\ version' = [s \in Slot |-> 0]
   /\ val' = [n \in Node |-> {}]
   /\ used' = {}
@@ -103,6 +103,8 @@ TRunDone == IsEv("run.done") /\ SomeTask(LAMBDA st :
                       [] Ev.err = "retry" -> Top(st).k = "failed" /\ Top(st).n = "retry" /\ RunFail(st)
                       [] Ev.err = "fatal" -> Top(st).k = "failed" /\ Top(st).n \in {"fatal", "ctx"} /\ RunFail(st))
 TStopStart == IsEv("stop.start") /\ StartStop(Ev.r)
+\* the driver cancels the context the rerunner was created from (logged, under the recorder's lock, just before it does)
+TParentCancel == IsEv("parent.cancel") /\ ParentCancel(Ev.r)
 \* cancelCtx() takes effect somewhere between the call of Stop and this hook (which fires after it,
 \* outside any lock): the step itself is silent, the event only says it has happened by now
 TStopCancelled ==
@@ -120,7 +122,7 @@ TSilent == /\ l <= Len(Trace) /\ silent < K /\ silent' = silent + 1 /\ UNCHANGED
 
 TNext == \/ TReset \/ TBump \/ TStrobe \/ TInvMark \/ TInvHandler \/ TRelMark \/ TCleanup \/ TRelUnlink \/ TAddOut \/ TTouch
          \/ TArm \/ TCtxDone \/ TRunLocked \/ TCleanCheck \/ TRunCleaned \/ TCacheMiss \/ TCacheHit \/ TCacheSet \/ TTrack \/ TRead
-         \/ TPurge \/ TCompFail \/ TRunDone \/ TStopStart \/ TStopCancelled \/ TStopLocked \/ TStopReturned \/ TQuiesce \/ TSilent
+         \/ TPurge \/ TCompFail \/ TRunDone \/ TStopStart \/ TParentCancel \/ TStopCancelled \/ TStopLocked \/ TStopReturned \/ TQuiesce \/ TSilent
 TSpec == TInit /\ [][TNext]_tvars
 
 HW == TLCSet(1, IF TLCGet(1) < l THEN l ELSE TLCGet(1))
